@@ -5,7 +5,7 @@ From Verif Require Import Base.Prelude Model.C21 Proofs.C21_order.
 (** * The two-stage predicate evaluation equals direct evaluation *)
 Lemma index_cond_field_indep p s f f' : eval (index_cond p) s f = eval (index_cond p) s f'.
 Proof.
-  induction p as [|neq k v|a IHa b IHb|a IHa b IHb]; cbn; auto.
+  induction p as [|neq k v|op n|a IHa b IHb|a IHa b IHb]; cbn; auto.
   - destruct (String.eqb k K_FIELD) eqn:E; cbn; auto.
     unfold ref_value. rewrite E. reflexivity.
   - rewrite IHa, IHb. reflexivity.
@@ -16,7 +16,7 @@ Qed.
     negation in the expression language, [!=] is a leaf) *)
 Lemma index_cond_weaker p s f : eval p s f = true -> eval (index_cond p) s f = true.
 Proof.
-  induction p as [|neq k v|a IHa b IHb|a IHa b IHb]; cbn; auto.
+  induction p as [|neq k v|op n|a IHa b IHb|a IHa b IHb]; cbn; auto.
   - destruct (String.eqb k K_FIELD); cbn; auto.
   - rewrite !andb_true_iff. intuition.
   - rewrite !orb_true_iff. intuition.
@@ -235,4 +235,127 @@ Proof.
   intros lo e H. unfold multi_cursor in H. apply in_flat_map in H as [sh [_ H]].
   apply in_shard_cursor in H as [_ H]. subst e. unfold clamp_end in H.
   destruct (Z.geb_spec end_ MaxNanoTime); lia.
+Qed.
+
+(** * Field-value conditions *)
+Definition vpass (c : option vexp) (v : Z) : bool :=
+  match c with None => true | Some e => veval e v end.
+
+Lemma red_and_eval x y v : veval (red_and x y) v = veval x v && veval y v.
+Proof.
+  unfold red_and.
+  destruct x as [[]| | |], y as [[]| | |]; cbn; rewrite ?andb_true_r, ?andb_false_r; reflexivity.
+Qed.
+Lemma red_or_eval x y v : veval (red_or x y) v = veval x v || veval y v.
+Proof.
+  unfold red_or.
+  destruct x as [[]| | |], y as [[]| | |]; cbn; rewrite ?orb_true_r, ?orb_false_r; reflexivity.
+Qed.
+
+(** the reduced per-row expression decides the full predicate on the row's values *)
+Lemma veval_reduce p s f v : veval (reduce p s f) v = eval_v p s f v.
+Proof.
+  induction p as [|neq k w|op n|a IHa b IHb|a IHa b IHb]; cbn; auto.
+  - rewrite red_and_eval, IHa, IHb. reflexivity.
+  - rewrite red_or_eval, IHa, IHb. reflexivity.
+Qed.
+
+Lemma value_cond_spec p s f v : vpass (value_cond p s f) v = opt_eval_v p s f v.
+Proof.
+  destruct p as [p|]; cbn; auto.
+  destruct (reduce p s f) as [[]| | |] eqn:E; cbn; rewrite <- veval_reduce, E; reflexivity.
+Qed.
+
+(** a point can only pass the full predicate if the row condition holds *)
+Lemma eval_v_row p s f v : eval_v p s f v = true -> eval p s f = true.
+Proof.
+  induction p as [|neq k w|op n|a IHa b IHb|a IHa b IHb]; cbn; auto.
+  - rewrite !andb_true_iff. intuition.
+  - rewrite !orb_true_iff. intuition.
+Qed.
+
+Lemma vfilter_app c a b : vfilter c (a ++ b) = vfilter c a ++ vfilter c b.
+Proof. destruct c; cbn; auto. apply filter_app. Qed.
+Lemma vfilter_flat_map {A} c (g : A -> list point) l :
+  vfilter c (flat_map g l) = flat_map (fun x => vfilter c (g x)) l.
+Proof.
+  induction l as [|x l IH]; cbn; [destruct c; reflexivity|]. rewrite vfilter_app, IH. reflexivity.
+Qed.
+Lemma in_vfilter c pts t v : In (t, v) (vfilter c pts) <-> In (t, v) pts /\ vpass c v = true.
+Proof. destruct c; cbn; [rewrite filter_In; cbn|]; tauto. Qed.
+Lemma vfilter_sorted c pts : StronglySorted pt_lt pts -> StronglySorted pt_lt (vfilter c pts).
+Proof. destruct c; cbn; auto. apply sorted_filter_rel. Qed.
+
+(** a shard whose measurement lacks the field holds no point of the series field *)
+Lemma no_field_no_points sh s f : has_field sh s f = false -> shard_points sh s f = [].
+Proof.
+  unfold has_field, shard_points, shard_fields. intro H.
+  induction (sh_data sh) as [|sd l IH]; cbn in *; auto.
+  destruct (series_eqb (sd_series sd) s) eqn:E.
+  - apply series_eqb_eq in E. subst s. rewrite String.eqb_refl in H.
+    rewrite existsb_app, orb_false_iff in H. destruct H as [H1 H2]. rewrite (IH H2), app_nil_r.
+    clear IH H2. induction (sd_fields sd) as [|[g pts] fs IHf]; cbn in *; auto.
+    rewrite orb_false_iff in H1. destruct H1 as [H1 H1']. rewrite String.eqb_sym, H1. cbn.
+    apply IHf, H1'.
+  - apply IH. destruct (String.eqb (s_name (sd_series sd)) (s_name s)); auto.
+    rewrite existsb_app, orb_false_iff in H. tauto.
+Qed.
+
+Lemma multi_cursor_skip shs lo hi s f :
+  multi_cursor (skip_nil shs s f) lo hi s f = multi_cursor shs lo hi s f.
+Proof.
+  unfold multi_cursor. induction shs as [|sh shs IH]; cbn; auto.
+  destruct (has_field sh s f) eqn:E; cbn; auto.
+  unfold shard_cursor at 2. rewrite (no_field_no_points _ _ _ E). cbn. exact IH.
+Qed.
+
+(** The shared cursor returns exactly the row's own points passing the row's own value
+    condition when the row has a condition of its own, or no earlier row of the same field
+    type armed the filter, or at most one shard is read. *)
+Definition cursor_ok (st : fstate) (ty : N) (cond : option vexp) (shs : list shard) : Prop :=
+  cond <> None \/ st_get st ty = None \/ length shs <= 1.
+
+Lemma multi_cursor_v_ok st ty cond shs lo hi s f :
+  cursor_ok st ty cond shs ->
+  fst (multi_cursor_v st ty cond shs lo hi s f) = vfilter cond (multi_cursor shs lo hi s f).
+Proof.
+  intro OK. rewrite <- multi_cursor_skip. unfold multi_cursor_v.
+  assert (L : length (skip_nil shs s f) <= length shs).
+  { clear. induction shs as [|sh shs IH]; cbn; auto. destruct (has_field sh s f); cbn; lia. }
+  destruct (skip_nil shs s f) as [|sh rest]; cbn [fst].
+  { destruct cond; reflexivity. }
+  unfold multi_cursor. cbn [flat_map]. rewrite vfilter_app, vfilter_flat_map. f_equal.
+  destruct OK as [OK|[OK|OK]].
+  - destruct cond as [e|]; [|congruence]. cbn [st_get st_set]. rewrite N.eqb_refl. reflexivity.
+  - destruct cond as [e|]; cbn [st_get st_set]; [rewrite N.eqb_refl|rewrite OK]; reflexivity.
+  - destruct rest; [reflexivity|]. cbn in L. lia.
+Qed.
+
+(** rows of a request that all carry, or all lack, a value condition: every row is exact *)
+Definition exact_row (sel : list shard) (lo hi : Z) (r : srow) : row :=
+  (srow_tags r, vfilter (r_cond r) (multi_cursor sel lo hi (r_s r) (r_f r))).
+
+Lemma read_rows_uniform ty sel lo hi rows : forall st,
+  Forall (fun r => r_cond r <> None) rows \/
+  (Forall (fun r => r_cond r = None) rows /\ forall t, st_get st t = None) \/
+  length sel <= 1 ->
+  fst (read_rows ty sel lo hi st rows) = map (exact_row sel lo hi) rows.
+Proof.
+  induction rows as [|r rows IH]; intros st H; cbn; auto.
+  unfold read_one.
+  pose proof (multi_cursor_v_ok st (ty_of ty (r_f r)) (r_cond r) sel lo hi (r_s r) (r_f r)) as E.
+  destruct (multi_cursor_v st (ty_of ty (r_f r)) (r_cond r) sel lo hi (r_s r) (r_f r))
+    as [pts st1] eqn:M. cbn [fst] in E.
+  specialize (IH st1). destruct (read_rows ty sel lo hi st1 rows) as [xs st2]. cbn [fst] in *.
+  unfold exact_row at 1. f_equal.
+  - f_equal. apply E. destruct H as [H|[[H1 H2]|H]].
+    + left. inversion H; auto.
+    + right; left. apply H2.
+    + right; right. exact H.
+  - apply IH. destruct H as [H|[[H1 H2]|H]].
+    + left. inversion H; auto.
+    + right; left. inversion H1 as [|? ? C R]; subst. split; auto.
+      unfold multi_cursor_v in M. rewrite C in M.
+      destruct (skip_nil sel (r_s r) (r_f r)); inversion M; subst; auto.
+    + right; right. exact H.
 Qed.
